@@ -117,16 +117,15 @@ Section Inv2.
     intros Hn H. unfold offer.
     assert (Hel : NN -> 0 <= el_size o n) by (intros HN; apply el_size_nonneg; auto).
     assert (H0 : Inv6 (add_offered st n)) by (eapply view_Inv6; [..|exact H]; reflexivity).
+    assert (Hnote : forall s k, Inv6 s -> Inv6 (note_send o s k)) by (intros s k Hs; unfold note_send; destruct (is_wfr o); exact Hs).
+    assert (Hrej : Inv6 (reject o (add_offered st n) n)) by (eapply view_Inv6; [..|exact H0]; reflexivity).
     destruct (qc o) as [c|].
     - destruct (q_storage c).
-      + destruct (over (q_cap c) _).
-        * eapply view_Inv6; [..|exact H0]; reflexivity.
-        * apply (accept_G o NN); auto.
-      + destruct (el_size o n =? 0); [exact H0|]. destruct (over (q_cap c) (el_size o n)).
-        * eapply view_Inv6; [..|exact H0]; reflexivity.
-        * destruct (over (q_cap c) _).
-          -- eapply view_Inv6; [..|exact H0]; reflexivity.
-          -- apply (accept_G o NN); auto.
+      + destruct (q_block c && over (q_cap c) (el_size o n)); [apply Hnote, Hrej|].
+        destruct (over (q_cap c) _); [unfold no_room; apply Hnote, Hrej|].
+        destruct (n =? o_badmarshal o); [apply Hnote, Hrej|apply Hnote, (accept_G o NN); auto].
+      + destruct (el_size o n =? 0); [apply Hnote, H0|]. destruct (over (q_cap c) (el_size o n)); [apply Hnote, Hrej|].
+        destruct (over (q_cap c) _); [unfold no_room; apply Hnote, Hrej|apply Hnote, (accept_G o NN); auto].
     - apply (work_G o NN). unfold Proofs7.Inv6, Proofs6.GI, push_flushes in *.
       cbn [s_ref s_queue s_next s_qsize s_stored s_kept s_flushq set_flushq].
       eapply GIR_equiv; [|exact H0]. intros g. rewrite !dsum_refs. cbn [s_cur s_hung set_flushq].
@@ -270,7 +269,7 @@ Qed.
 
 (* ---- persistent queue: the size field UNDER-counts after the read index catches up -------------- *)
 Definition opts_pq : eopts :=
-  {| o_sig := Logs; o_queue := true; o_storage := true; o_items_sizer := false; o_cap := 5; o_wfr := false;
+  {| o_sig := Logs; o_queue := true; o_storage := true; o_items_sizer := false; o_cap := 5; o_wfr := false; o_block := false; o_badmarshal := -1;
      o_qbatch := None; o_batcher := None; o_retry := false; o_tracing := false |}.
 
 (* three Sends while the pusher is gated: the consumer reads the first request, the read index
